@@ -45,14 +45,19 @@ func init() {
 func (p *c16) ID() string { return "C16" }
 
 func (p *c16) Rule() string {
-	return "enumerated part: every combination of target file (page | explicit layout | default layouts/base.vuego as full document | page plus layout sharing the components | chain of two layouts) x outer wrapper x inner wrapper (none, v-for with 0..3 items, <template v-for>, v-if true/false, v-for + per-item v-if, component included 1..3 times in bare and <template>-wrapped form, include tag carrying v-for, slot content given to a component inside a loop, component rendering its slot twice) x payload (one script/style/div element, two and three sibling elements, nested marked elements, v-once together with v-for on one element for 0/1/3 items, v-once with constant v-if on one element) x a further marked sibling beside the inner wrapper (thorough: with and without; quick uses a subset of the wrapper parameters); random part: seeded random sites with 1..4 marked elements spread over page, second page, up to 3 components (nested includes, slots) and up to 2 layouts plus the default layout, nesting depth <= 3. Every case is rendered through Load().Render, RenderFile, RenderString, RenderByte, RenderReader, Vue.Render and Vue.RenderFragment, each on one engine in the order P, Q, P (thorough: P, Q, P, P; Q = second page sharing the components), then F, P: F is the page followed by an include of a missing file, so the render fails after it has passed every element; the P after it must emit what the first P emitted. Non-trivial = at least one marked element is reached in the reference model; distinct by the generated sources."
+	return "scen part: hand-built sites for marked elements that are v-else-if / v-else members of a chain (in a loop, after an empty loop, in a component included three times, two side by side, chain head in a loop) and for marked elements in the named-slot content a page hands to its layout (slot used once, slot used in a loop of the layout), each rendered twice on one engine through every entry point against stated marker counts; enumerated part: every combination of target file (page | explicit layout | default layouts/base.vuego as full document | page plus layout sharing the components | chain of two layouts) x outer wrapper x inner wrapper (none, v-for with 0..3 items, <template v-for>, v-if true/false, v-for + per-item v-if, component included 1..3 times in bare and <template>-wrapped form, include tag carrying v-for, slot content given to a component inside a loop, component rendering its slot twice) x payload (one script/style/div element, two and three sibling elements, nested marked elements, v-once together with v-for on one element for 0/1/3 items, v-once with constant v-if on one element) x a further marked sibling beside the inner wrapper (thorough: with and without; quick uses a subset of the wrapper parameters); random part: seeded random sites with 1..4 marked elements spread over page, second page, up to 3 components (nested includes, slots) and up to 2 layouts plus the default layout, nesting depth <= 3. Every case is rendered through Load().Render, RenderFile, RenderString, RenderByte, RenderReader, Vue.Render and Vue.RenderFragment, each on one engine in the order P, Q, P (thorough: P, Q, P, P; Q = second page sharing the components), then F, P: F is the page followed by an include of a missing file, so the render fails after it has passed every element; the P after it must emit what the first P emitted. Non-trivial = at least one marked element is reached in the reference model; distinct by the generated sources."
 }
 
 func (p *c16) nRand(ctx core.Ctx) int { return ctx.Pick(3000, 20000) }
 
-func (p *c16) Plan(ctx core.Ctx) int { return c16EnumCount(ctx.Thorough()) + p.nRand(ctx) }
+func (p *c16) Plan(ctx core.Ctx) int { return c16NScen() + c16EnumCount(ctx.Thorough()) + p.nRand(ctx) }
 
 func (p *c16) Gen(ctx core.Ctx, i int) any {
+	if i >= 0 && i < c16NScen() {
+		sc := c16Scens[i]
+		return c16Case{Part: "scen", Label: sc.Label, Page: c16File{Name: "p.vuego"}, Scen: &sc}
+	}
+	i -= c16NScen()
 	n := c16EnumCount(ctx.Thorough())
 	if i < 0 || i >= n+p.nRand(ctx) {
 		return c16Case{Part: "none", Page: c16File{Name: "p.vuego"}}
@@ -134,6 +139,9 @@ type c16FailAgg struct {
 
 func (p *c16) Exec(ctx core.Ctx, cc any) core.Obs {
 	c := cc.(c16Case)
+	if c.Part == "scen" && c.Scen != nil {
+		return p.execScen(ctx, c)
+	}
 	var o core.Obs
 	files, bodies := c16Sources(&c)
 	pages := []*c16File{&c.Page}
